@@ -1,0 +1,19 @@
+//go:build verif
+
+package rootmulti
+
+import "github.com/pokt-network/pocket-core/store/iavl"
+
+// VerifSetBaseVersion makes an empty, never-committed multistore continue from the given version
+// (the next commit is version v+1). Verification builds only.
+func (rs *Store) VerifSetBaseVersion(v int64) {
+	if rs.lastCommitID.Version != 0 {
+		panic("VerifSetBaseVersion: multistore already has commits")
+	}
+	for _, s := range rs.stores {
+		if st, ok := s.(*iavl.Store); ok {
+			st.VerifSetBaseVersion(v)
+		}
+	}
+	rs.lastCommitID.Version = v
+}
